@@ -445,14 +445,16 @@ fn sock_outcome(c: &SockCase) -> Outcome {
             w.extend(payload.clone());
             (w, payload.clone())
         }
-        Kind::XPub => {
-            // a subscription message (single frame, first byte 1)
+        Kind::XPub | Kind::Pub => {
+            // a subscription message (single frame, first byte 1); a PUB has no recv: whether
+            // the subscription took effect is observed by publishing (below)
             let mut t = vec![1u8];
             t.extend_from_slice(&payload[0]);
             (vec![t.clone()], vec![t])
         }
         _ => (payload.clone(), payload.clone()),
     };
+    let pub_topic: Vec<u8> = payload[0].clone();
     let mut stream = refcodec::RefGreeting::valid_null().encode();
     let mut props = vec![(b"Socket-Type".to_vec(), kind.a_compatible_peer().as_bytes().to_vec())];
     if c.ready_pad > 0 {
@@ -503,7 +505,12 @@ fn sock_outcome(c: &SockCase) -> Outcome {
                     fail!(f, format!("C02/socket/{}/spin", kind.name()), "socket did not reach quiescence");
                     return f;
                 }
-                if sim.done(a) && recv.is_none() {
+                if sim.done(a) && recv.is_none() && kind == Kind::Pub {
+                    if !matches!(sim.out(a), Some(Out::Attach(Ok(_)))) {
+                        fail!(f, format!("C02/socket/{}/attach-failed", kind.name()), "handshake failed: {:?}", sim.out(a));
+                        return f;
+                    }
+                } else if sim.done(a) && recv.is_none() {
                     if !matches!(sim.out(a), Some(Out::Attach(Ok(_)))) {
                         fail!(f, format!("C02/socket/{}/attach-failed", kind.name()), "handshake failed: {:?}", sim.out(a));
                         return f;
@@ -519,6 +526,32 @@ fn sock_outcome(c: &SockCase) -> Outcome {
                 if link.to_lib.undelivered() == 0 {
                     break;
                 }
+            }
+            if kind == Kind::Pub {
+                if !sim.done(a) {
+                    fail!(f, "C02/socket/PUB/attach-incomplete", "handshake did not complete after all bytes were delivered");
+                    return f;
+                }
+                let _ = sim.settle().await;
+                // the subscription that arrived with (or right after) the handshake is in force
+                let mut first = pub_topic.clone();
+                first.extend_from_slice(b"!");
+                let m: Frames = vec![first, b"body".to_vec()];
+                let sa = sim.send(s, &m);
+                let _ = sim.run(sa).await;
+                let _ = sim.settle().await;
+                match link.lib_messages() {
+                    Ok(got) if got == vec![m.clone()] => {}
+                    Ok(got) => fail!(
+                        f,
+                        "C02/socket/PUB/first-message-lost",
+                        "the subscription ({} topic bytes) that arrived with the handshake did not take effect: a matching publish put {} messages on that connection",
+                        pub_topic.len(),
+                        got.len()
+                    ),
+                    Err(e) => fail!(f, "C02/socket/PUB/wire-malformed", "{}", e),
+                }
+                return f;
             }
             let Some(rv) = recv else {
                 fail!(f, format!("C02/socket/{}/attach-incomplete", kind.name()), "handshake did not complete after all bytes were delivered");
@@ -558,7 +591,7 @@ fn sock_outcome(c: &SockCase) -> Outcome {
     o
 }
 
-const SOCK_KINDS: [Kind; 7] = [Kind::Pull, Kind::Sub, Kind::Dealer, Kind::Router, Kind::Rep, Kind::XPub, Kind::Req];
+const SOCK_KINDS: [Kind; 8] = [Kind::Pull, Kind::Sub, Kind::Dealer, Kind::Router, Kind::Rep, Kind::XPub, Kind::Req, Kind::Pub];
 
 fn sock_cases_enumerated() -> Vec<SockCase> {
     use crate::props::c01::{Fill, FrameSpec};
@@ -632,7 +665,7 @@ pub fn run(ctx: &Ctx) -> (Report, PropertyMeta) {
 
     let sc = sock_cases_enumerated();
     let r = run_cases(ctx, "socket", &sc, sock_outcome);
-    report.exhaustive_parts.push(format!("socket level: 7 socket types x 3 messages x (one write + every single cut within -4..+6 bytes of the READY/message boundary, with and without a separate greeting read + long READY): {} cases", sc.len()));
+    report.exhaustive_parts.push(format!("socket level: 8 socket types x 3 messages x (one write + every single cut within -4..+6 bytes of the READY/message boundary, with and without a separate greeting read + long READY): {} cases", sc.len()));
     report.merge(r);
     let n = t.pick(6000, 200_000);
     let r = run_random(
